@@ -249,3 +249,31 @@ Proof.
   unfold run_sparse in H. cbn [run] in H. rewrite <- Hsq in H.
   exact (bicgstab_left_eigenvector_breakdown FL (sp_rows s) (sp_mul s) (sp_tmul s) LO ADJ b x0 _ lam max tol res x g Eax Eeig' Hmax H).
 Qed.
+
+(* BiCG on a left-eigenvector start, for the implementation's own matrix type (any field) *)
+Theorem bicg_left_eigenvector_breakdown_sparse {A : SArith} (FL : FieldLaws (SA A))
+    (s : sparse (SA A)) itol (b x0 : list (T (SA A))) lam max tol err0 err1 :
+  wfS s -> sp_rows s = sp_cols s -> itol = 1 \/ itol = 2 -> length b = sp_rows s -> length x0 = sp_rows s ->
+  let r0 := zipw sub b (sp_apply s x0) in
+  let rho := dot_raw r0 r0 in
+  let alpha := mul rho (fl_inv (SA A) FL (mul rho lam)) in
+  sp_tapply s r0 = vscale r0 lam -> lam <> zero -> rho <> zero ->
+  div (norm2 r0) (nz (norm2 b)) = Ok err0 -> leb err0 tol = false ->
+  div (norm2 (zipw sub r0 (vscale (sp_apply s r0) alpha))) (nz (norm2 b)) = Ok err1 -> leb err1 tol = false ->
+  2 <= max ->
+  run_sparse (BiCG itol) s b x0 max tol = Panic DivZero.
+Proof.
+  intros Hwf Hsq Hit Hb Hx r0 rho alpha Eeig Hlam Hrho Ee0 Ht0 Ee1 Ht1 Hmax.
+  pose proof (FL_RingLaws FL) as RL.
+  pose proof (sp_mul_LinOp RL s (sp_rows s) Hwf eq_refl (eq_sym Hsq)) as LO.
+  pose proof (sp_mul_AdjOp RL s (sp_rows s) Hwf eq_refl (eq_sym Hsq)) as ADJ.
+  assert (Eax : sp_mul s x0 = Ok (sp_apply s x0)) by (apply (sp_mul_spec_lemma RL); auto; lia).
+  assert (Hr0 : length r0 = sp_rows s).
+  { unfold r0. rewrite zipw_length; auto. unfold sp_apply. rewrite dmulv_length. exact Hb. }
+  assert (Ear0 : sp_mul s r0 = Ok (sp_apply s r0)) by (apply (sp_mul_spec_lemma RL); auto; lia).
+  assert (Eeig' : sp_tmul s r0 = Ok (vscale r0 lam)).
+  { rewrite <- Eeig. apply (sp_tmul_spec_lemma RL); auto. }
+  unfold run_sparse. cbn [run]. rewrite <- Hsq.
+  exact (bicg_left_eigenvector_breakdown FL (sp_rows s) (sp_mul s) (sp_tmul s) LO ADJ itol b x0 _ _ lam max tol err0 err1
+           Hit Hb Hx Eax Eeig' Hlam Hrho Ear0 Ee0 Ht0 Ee1 Ht1 Hmax).
+Qed.
